@@ -617,3 +617,230 @@ func ruleC37f(c *Ctx, r *Report) {
 		r.viol(rule, name, "blocking-hand-over", c.Pos(rm.Pos()), "a removal can be dropped (non-blocking send or a path without the send): the removed session is still closed by its old registration")
 	}
 }
+
+// ---------------------------------------------------------------------------------------
+// C32 (third wave): the answers of the two phases are reported as they are
+
+func init() {
+	register("C32", "", ruleC32d)
+}
+
+// ruleC32d (MP-C32d):
+//  (report) in cc/service.ModifyNamespace the value each per-proxy goroutine sends on the phase's error channel is, on
+//           every path, the result of that goroutine's last proxy.PrepareConfig / proxy.CommitConfig call: no nil is
+//           substituted after a call (an error answer "explained away" counts a proxy that did not switch as committed);
+//  (ack)    on the proxy, AdminServer.prepareConfig answers 200 only when the coordinator client was created and
+//           Server.ReloadNamespacePrepare (which reads the namespace from that client's store) returned nil;
+//           commitConfig answers 200 only on the nil-error edge of Server.ReloadNamespaceCommit; and
+//           Server.ReloadNamespacePrepare hands Manager.ReloadNamespacePrepare exactly what Store.LoadNamespace
+//           returned on its nil-error edge.
+func ruleC32d(c *Ctx, r *Report) {
+	const rule = "MP-C32d"
+	r.floor(rule, 5)
+	modify := c.Func("cc/service", "ModifyNamespace")
+	prep := c.Func("cc/proxy", "PrepareConfig")
+	comm := c.Func("cc/proxy", "CommitConfig")
+	if modify == nil || prep == nil || comm == nil {
+		r.undecided(rule, "cc/service.ModifyNamespace", "anchor", "-", "ModifyNamespace / proxy.PrepareConfig / proxy.CommitConfig not found")
+	} else {
+		n := 0
+		for _, fn := range c.Funcs {
+			if fn.Parent() != modify {
+				continue
+			}
+			for _, phase := range []*ssa.Function{prep, comm} {
+				calls := callsIn(fn, func(cc *ssa.CallCommon) bool { return callsFunc(cc, phase) })
+				if len(calls) == 0 {
+					continue
+				}
+				var sends []*ssa.Send
+				allInstrs(fn, func(in ssa.Instruction) {
+					if s, ok := in.(*ssa.Send); ok && isErrorType(s.X.Type()) {
+						sends = append(sends, s)
+					}
+				})
+				n++
+				cons := "report:" + phase.Name()
+				name := c.FuncName(modify)
+				if len(sends) != 1 {
+					r.undecided(rule, name, cons, c.Pos(fn.Pos()), fmt.Sprintf("expected one send of the phase result per proxy goroutine, found %d", len(sends)))
+					continue
+				}
+				bad := ""
+				seen := map[ssa.Value]bool{}
+				var walk func(v ssa.Value, pred *ssa.BasicBlock)
+				walk = func(v ssa.Value, pred *ssa.BasicBlock) {
+					v = stripValue(v)
+					switch x := v.(type) {
+					case *ssa.Phi:
+						if seen[x] {
+							return
+						}
+						seen[x] = true
+						for i, e := range x.Edges {
+							walk(e, x.Block().Preds[i])
+						}
+						return
+					case *ssa.UnOp:
+						if x.Op == token.MUL {
+							if cell, ok := x.X.(*ssa.Alloc); ok {
+								if sts, _, ok := reachingStores(cell, x); ok && len(sts) > 0 {
+									for _, st := range sts {
+										if isNilConst(st.Val) {
+											for _, cl := range calls {
+												if st.Block() == cl.Block() && instrIndex(st) > instrIndex(cl) || (st.Block() != cl.Block() && blockReachable(cl.Block(), st.Block())) {
+													bad = "the error of " + phase.Name() + " is replaced by nil before it is reported"
+												}
+											}
+											continue
+										}
+										walk(st.Val, st.Block())
+									}
+									return
+								}
+							}
+						}
+					case *ssa.Const:
+						if x.IsNil() {
+							// a nil that enters after a phase call ran replaces that call's answer
+							for _, cl := range calls {
+								if pred != nil && (pred == cl.Block() || blockReachable(cl.Block(), pred)) {
+									// the edge from the call's own success test (err == nil -> break) carries the call result, not a constant
+									bad = "the error of " + phase.Name() + " is replaced by nil before it is reported"
+								}
+							}
+							return
+						}
+					case *ssa.Call:
+						for _, cl := range calls {
+							if cl == ssa.Instruction(x) {
+								return
+							}
+						}
+					}
+					bad = "a value other than the result of " + phase.Name() + " is reported for the proxy"
+				}
+				walk(sends[0].X, nil)
+				if bad == "" {
+					r.ok(rule, name, cons, c.Pos(sends[0].Pos()), "each proxy goroutine reports the result of its last "+phase.Name()+" call unchanged")
+				} else {
+					r.viol(rule, name, cons, c.Pos(sends[0].Pos()), bad+": a proxy that did not prepare/commit is counted as done and the change is reported successful")
+				}
+			}
+		}
+		if n < 2 {
+			r.undecided(rule, c.FuncName(modify), "report:goroutines", c.Pos(modify.Pos()), "expected the prepare and the commit goroutine")
+		}
+	}
+
+	// ---- proxy side acknowledgements
+	admPrepare := c.Method(serverRel, "AdminServer", "prepareConfig")
+	admCommit := c.Method(serverRel, "AdminServer", "commitConfig")
+	srvPrepare := c.Method(serverRel, "Server", "ReloadNamespacePrepare")
+	srvCommit := c.Method(serverRel, "Server", "ReloadNamespaceCommit")
+	mgrPrepare := c.Method(serverRel, "Manager", "ReloadNamespacePrepare")
+	newClient := c.Func("models", "NewClient")
+	if admPrepare == nil || admCommit == nil || srvPrepare == nil || srvCommit == nil || mgrPrepare == nil || newClient == nil {
+		r.undecided(rule, serverRel, "ack:anchor", "-", "AdminServer.prepareConfig/commitConfig, Server.ReloadNamespacePrepare/Commit, Manager.ReloadNamespacePrepare, models.NewClient not all found")
+		return
+	}
+	okAcks := func(fn *ssa.Function) []ssa.Instruction {
+		var out []ssa.Instruction
+		allInstrs(fn, func(in ssa.Instruction) {
+			cc := callCommon(in)
+			if cc == nil || len(cc.Args) < 2 {
+				return
+			}
+			f := staticCallee(cc)
+			if f == nil || f.Name() != "JSON" {
+				return
+			}
+			if k, ok := constInt(cc.Args[1]); ok && k == 200 {
+				out = append(out, in)
+			}
+		})
+		return out
+	}
+	{
+		name := c.FuncName(admPrepare)
+		acks := okAcks(admPrepare)
+		if len(acks) == 0 {
+			r.undecided(rule, name, "ack:prepare", c.Pos(admPrepare.Pos()), "no 200 answer found")
+		}
+		for i, a := range acks {
+			cons := fmt.Sprintf("ack:prepare#%d", i+1)
+			okClient, okPrep := false, false
+			for _, ci := range callsIn(admPrepare, func(cc *ssa.CallCommon) bool { return callsFunc(cc, newClient) }) {
+				if call, ok := ci.(*ssa.Call); ok && dominatedByNilErr(a, call) {
+					okClient = true
+				}
+			}
+			for _, ci := range callsIn(admPrepare, func(cc *ssa.CallCommon) bool { return callsFunc(cc, srvPrepare) }) {
+				if call, ok := ci.(*ssa.Call); ok && dominatedByNilErr(a, call) {
+					okPrep = true
+				}
+			}
+			switch {
+			case okClient && okPrep:
+				r.ok(rule, name, cons, c.Pos(a.Pos()), "the prepare is acknowledged only after the coordinator client was created and ReloadNamespacePrepare succeeded")
+			case !okClient:
+				r.viol(rule, name, cons, c.Pos(a.Pos()), "a prepare can be acknowledged although the coordinator was not reachable: the proxy parks (and will commit) a configuration that is not the one the control plane stored")
+			default:
+				r.viol(rule, name, cons, c.Pos(a.Pos()), "a prepare can be acknowledged without Server.ReloadNamespacePrepare having succeeded")
+			}
+		}
+	}
+	{
+		name := c.FuncName(admCommit)
+		acks := okAcks(admCommit)
+		if len(acks) == 0 {
+			r.undecided(rule, name, "ack:commit", c.Pos(admCommit.Pos()), "no 200 answer found")
+		}
+		for i, a := range acks {
+			cons := fmt.Sprintf("ack:commit#%d", i+1)
+			good := false
+			for _, ci := range callsIn(admCommit, func(cc *ssa.CallCommon) bool { return callsFunc(cc, srvCommit) }) {
+				if call, ok := ci.(*ssa.Call); ok && dominatedByNilErr(a, call) {
+					good = true
+				}
+			}
+			if good {
+				r.ok(rule, name, cons, c.Pos(a.Pos()), "the commit is acknowledged only on the nil-error edge of ReloadNamespaceCommit")
+			} else {
+				r.viol(rule, name, cons, c.Pos(a.Pos()), "a commit can be acknowledged although the proxy did not switch configuration")
+			}
+		}
+	}
+	{
+		name := c.FuncName(srvPrepare)
+		mp := callsIn(srvPrepare, func(cc *ssa.CallCommon) bool { return callsFunc(cc, mgrPrepare) })
+		if len(mp) != 1 {
+			r.undecided(rule, name, "ack:prepared-config-source", c.Pos(srvPrepare.Pos()), "expected one Manager.ReloadNamespacePrepare call")
+		} else {
+			arg := callCommon(mp[0]).Args[1]
+			good := false
+			why := "the configuration parked by the prepare is not the one just read from the coordinator's store"
+			leaves := phiLeaves(arg)
+			if len(leaves) == 1 {
+				if ex, ok := leaves[0].(*ssa.Extract); ok && ex.Index == 0 {
+					if call, ok := ex.Tuple.(*ssa.Call); ok {
+						if f := staticCallee(&call.Call); f != nil && f.Name() == "LoadNamespace" && dominatedByNilErr(mp[0], call) {
+							// the store is built from the client parameter
+							good = true
+							if st, ok := stripValue(call.Call.Args[0]).(*ssa.Call); ok {
+								if g := staticCallee(&st.Call); g == nil || g.Name() != "NewStore" || len(st.Call.Args) < 1 || stripValue(st.Call.Args[0]) != ssa.Value(srvPrepare.Params[2]) {
+									good, why = false, "the store the namespace is read from is not built on the coordinator client handed in by the admin endpoint"
+								}
+							}
+						}
+					}
+				}
+			}
+			if good {
+				r.ok(rule, name, "ack:prepared-config-source", c.Pos(mp[0].Pos()), "the parked configuration is Store.LoadNamespace's result on its nil-error edge, read through the client of this request")
+			} else {
+				r.viol(rule, name, "ack:prepared-config-source", c.Pos(mp[0].Pos()), why)
+			}
+		}
+	}
+}
